@@ -91,6 +91,12 @@ func (g *vecGen) fresh() []float32 {
 		copy(v, g.pool[g.rng.IntN(len(g.pool))])
 	case shape == 5 && len(g.pool) > 0: // near duplicate
 		src := g.pool[g.rng.IntN(len(g.pool))]
+		if g.rng.IntN(2) == 0 {
+			// the same vector with ONE component edited (two documents that differ in a single coordinate)
+			copy(v, src)
+			v[g.rng.IntN(g.dim)] += float32(1 + g.rng.IntN(4))
+			break
+		}
 		for i := range v {
 			v[i] = src[i] * (1 + 1e-6)
 		}
